@@ -172,7 +172,17 @@ def rule_H1(ctx):
         if ecls != frozenset(want):
             r.fail(f'utils:{rx}', f"endian class [{''.join(sorted(ecls))}]",
                    f"endianness prefixes must be exactly {sorted(want)}", loc='bitstring/utils.py')
-        chain = _endian_chain(f)
+        chain = _endian_chain(f) or _endian_dispatch(m, f)
+        if chain is None:
+            # the selection may have been moved into a helper this function hands the endian character to
+            for x in own_walk(f.node):
+                if isinstance(x, ast.Call) and isinstance(x.func, ast.Name) and x.func.id in m.modfuncs.get(f.mod, {}) \
+                        and any('endian' in ast.unparse(a) for a in x.args):
+                    g = m.modfuncs[f.mod][x.func.id]
+                    if 'endian' in g.params():
+                        chain = _endian_chain(g) or _endian_dispatch(m, g)
+                        if chain is not None:
+                            break
         if chain is None:
             raise AnalysisError(f"{fkey}: endian if-chain not recognised (needs a human)")
         for ch in sorted(ecls):
@@ -223,6 +233,33 @@ def _endian_chain(f):
                 tabs |= _tables_in(s)
             return sorted(tabs)[0] if len(tabs) == 1 else None
     return lambda ch: run(top, ch)
+
+
+def _endian_dispatch(m, f):
+    """The same selection written as a table: `{'>': REPLACEMENTS_BE, ...}.get(endian, DEFAULT)` or `TABLE[endian]`, with the
+    dict given in place or as a module global.  Returns char -> table name ('KeyError' for a missing key without default)."""
+    def as_dict(e):
+        if isinstance(e, ast.Name):
+            e = m.modglobals.get(f.mod, {}).get(e.id)
+        if isinstance(e, ast.Dict) and all(isinstance(k, ast.Constant) and isinstance(k.value, str) for k in e.keys) \
+                and all(isinstance(v, ast.Name) and v.id in REPL_TABLES for v in e.values):
+            return {k.value: v.id for k, v in zip(e.keys, e.values)}
+        return None
+
+    def is_endian(e):
+        t = ast.unparse(e)
+        return t == 'endian' or ("group('endian')" in t or 'group("endian")' in t)
+    for n in own_walk(f.node):
+        if isinstance(n, ast.Call) and isinstance(n.func, ast.Attribute) and n.func.attr == 'get' and n.args and is_endian(n.args[0]):
+            d = as_dict(n.func.value)
+            if d is not None:
+                default = n.args[1].id if len(n.args) > 1 and isinstance(n.args[1], ast.Name) and n.args[1].id in REPL_TABLES else None
+                return lambda ch, d=d, default=default: d.get(ch, default)
+        if isinstance(n, ast.Subscript) and is_endian(n.slice):
+            d = as_dict(n.value)
+            if d is not None:
+                return lambda ch, d=d: d.get(ch, 'KeyError')
+    return None
 
 
 def _tables_in(node):
